@@ -313,6 +313,14 @@ def handle (args : List String) : String :=
       | .ok r => "ok " ++ (if r.isComplete then "1 " else "0 ") ++ Proto.encodeStr (itemsText r.items)
       | .error x => "raise " ++ showExc x
     | _, _, _ => "bad-op"
+  | ["relit", ins, vb, cp] =>
+    match cp.toNat? with
+    | some n => "ok " ++ Proto.encodeStr (reLiteral (ins == "1") (vb == "1") (Char.ofNat n))
+    | none => "bad-op"
+  | ["reref", n, nx] =>
+    match n.toNat?, (if nx == "-" then some none else nx.toNat?.map (fun k => some (Char.ofNat k))) with
+    | some n, some next => "ok " ++ Proto.encodeStr (reGroupRef n next)
+    | _, _ => "bad-op"
   | "aug" :: ll :: ml :: lb :: k :: toks =>
     -- `pyval aug <linelen> <maxlines> <lb> <k> (<Op>|= e)×k`: the statements of one variable, then its display
     let stmt : List String → Option ((Option BOp × Expr) × List String) := fun toks =>
